@@ -207,12 +207,19 @@ EdgeView(st) == SetToSeqAny({[up |-> e[1], down |-> e[2], deleted |-> DeletedIn(
 MoveCases ==
     {[k |-> "move", n |-> n, old |-> old, new |-> new] : n \in Nodes, old \in AllNodes, new \in AllNodes}
     \cup {[k |-> "mirror", n |-> n, old |-> "", new |-> new] : n \in Nodes, new \in AllNodes}
+DupCases == {[k |-> "dup", n |-> n, old |-> "", new |-> new] : n \in Nodes, new \in AllNodes}
 MoveDump ==
-    \A c \in MoveCases :
+    /\ \A c \in MoveCases :
         LET r == IF c.k = "move" THEN Move(InitS, c.n, c.old, c.new, MoveTs, "t", FALSE)
                  ELSE Mirror(InitS, c.n, c.new, MoveTs, "t")
         IN PrintT(ToJson([shape |-> ShapeHist, op |-> c, reply |-> r.reply, edges |-> EdgeView(r.s),
-                          out |-> SetToSeqAny(r.out)]))
+                          out |-> SetToSeqAny(r.out), copies |-> <<>>]))
+    /\ \A c \in DupCases :
+        PrintT(ToJson([shape |-> ShapeHist, op |-> c,
+                       reply |-> IF DupRefused(InitS, c.n) THEN "err" ELSE IF DupDiverges(InitS, c.n, c.new) THEN "diverges" ELSE "",
+                       edges |-> EdgeView(InitS), out |-> <<>>,
+                       copies |-> IF DupRefused(InitS, c.n) THEN <<>> ELSE SetToSeqAny(DupCopies(InitS, c.n))]))
+DupTrees == \A n \in Nodes : DupIsTree(s, n)
 \* C01: one line per delivered set (subsets of the universe) with the expected read
 LwwSets == {S \in SUBSET LwwUniverse : Cardinality(S) >= 1 /\ Cardinality(S) <= 4}
 ASSUME Mode # "lwwsets" \/ PrintT(ToJson([universe |-> SetToSeqAny(LwwUniverse)]))
